@@ -47,17 +47,31 @@ type Monitor struct {
 	KnownKF1       int64 // order violations from the READDIRPLUS listing path (known finding KF1)
 	Violations     []LockViolation
 	CheckOrder     bool
-	// Yield, if set, is called at lock acquisition and commit points (schedule perturbation)
-	Yield func(point string)
+	// PanicOnSelf: a transaction about to request a lock it holds panics instead of blocking for ever
+	PanicOnSelf bool
+	// yield, if set, is called at lock acquisition and commit points (schedule perturbation)
+	yield atomic.Pointer[func(point string)]
+}
+
+func (m *Monitor) SetYield(f func(point string)) {
+	if f == nil {
+		m.yield.Store(nil)
+		return
+	}
+	m.yield.Store(&f)
 }
 
 var monitors sync.Map // *fstxn.FsState -> *Monitor
+
+// Defaults for monitors of servers started from now on (set by a test before it starts servers).
+var DefaultCheckOrder bool
+var DefaultPanicOnSelf bool
 
 func monitorFor(fs *fstxn.FsState) *Monitor {
 	if m, ok := monitors.Load(fs); ok {
 		return m.(*Monitor)
 	}
-	m, _ := monitors.LoadOrStore(fs, &Monitor{txns: map[*fstxn.FsTxn]*txnState{}})
+	m, _ := monitors.LoadOrStore(fs, &Monitor{txns: map[*fstxn.FsTxn]*txnState{}, CheckOrder: DefaultCheckOrder, PanicOnSelf: DefaultPanicOnSelf})
 	return m.(*Monitor)
 }
 
@@ -101,8 +115,8 @@ func callerOutsideFstxn() (string, bool) {
 
 func (observer) Acquire(op *fstxn.FsTxn, inum uint64) {
 	m := monitorFor(op.Fs)
-	if y := m.Yield; y != nil {
-		y("acquire")
+	if y := m.yield.Load(); y != nil {
+		(*y)("acquire")
 	}
 	if !m.CheckOrder {
 		return
@@ -132,7 +146,13 @@ func (observer) Acquire(op *fstxn.FsTxn, inum uint64) {
 	}
 	if self {
 		caller, _ := callerOutsideFstxn()
-		m.Violations = append(m.Violations, LockViolation{"self", inum, append([]uint64{}, st.held...), caller})
+		v := LockViolation{"self", inum, append([]uint64{}, st.held...), caller}
+		m.Violations = append(m.Violations, v)
+		if m.PanicOnSelf {
+			m.mu.Unlock()
+			defer m.mu.Lock()
+			panic("verif: self-acquire: " + v.String())
+		}
 		return
 	}
 	if inum < max && !fresh {
@@ -188,8 +208,8 @@ func (observer) Alloc(op *fstxn.FsTxn, inum uint64) {
 
 func (observer) Commit(op *fstxn.FsTxn, wait bool) {
 	m := monitorFor(op.Fs)
-	if y := m.Yield; y != nil {
-		y("commit")
+	if y := m.yield.Load(); y != nil {
+		(*y)("commit")
 	}
 }
 
